@@ -57,8 +57,12 @@ def work_split(args):
 
 
 def ref_decode(b):
+    """Reference decoding.  CPython's source decoder reads lines with universal newlines (a lone CR ends a line; checked
+    against compile() by oracle_selfcheck below), while tokenize.detect_encoding's readline only splits at LF: the
+    encoding is therefore detected on a copy with lone CRs turned into LFs, the original bytes are decoded."""
     try:
-        enc, _ = tokenize.detect_encoding(io.BytesIO(b).readline)
+        nb = b.replace(b'\r\n', b'\n').replace(b'\r', b'\n')
+        enc, _ = tokenize.detect_encoding(io.BytesIO(nb).readline)
         return b.decode(enc), enc
     except (SyntaxError, LookupError, UnicodeDecodeError):
         return None, None
@@ -90,6 +94,53 @@ def _cookie_in_comment(b):
     return False
 
 
+def structured_sources():
+    """first line x terminator x second line x payload: the shapes PEP 263 talks about, with every line terminator"""
+    firsts = [b'', b'#!/bin/sh', b' \t', b'# -*- coding: latin-1 -*-', b'x = 1', b'\x0c# c', b'"coding: latin-1"', b'#']
+    terms = [b'\n', b'\r\n', b'\r']
+    seconds = [b'# coding: latin-1', b'# vim: set fileencoding=cp1252 :', b'x = "coding=latin-1"', b'  #coding:utf-8', b'', b'pass']
+    pays = [b'\xc3\xa9', b'\xe9', b'e']
+    for f in firsts:
+        for t in terms:
+            for s2 in seconds:
+                for t2 in terms + [b'']:
+                    for p in pays:
+                        yield f + t + s2 + t2 + (b'y = "' + p + b'"' if t2 else b'')
+                        yield f + t + s2 + t2 + p
+
+
+def oracle_selfcheck():
+    """The reference above against the real compiler: for sources `...\\ny = "<payload>"` the value of y after
+    exec(compile(bytes)) must be the payload as decoded by the reference.  -> (checked, disagreements)"""
+    n = bad = 0
+    for b in structured_sources():
+        if b'y = "' not in b:
+            continue
+        exp, enc = ref_decode(b)
+        if exp is None:
+            continue
+        try:
+            ns = {}
+            exec(compile(b, '<c15>', 'exec'), ns)
+        except Exception:  # noqa
+            continue
+        n += 1
+        want = exp[exp.rindex('y = "') + 5:exp.rindex('"')]
+        if ns.get('y') != want:
+            bad += 1
+    return n, bad
+
+
+def work_structured(_):
+    fails = {}
+    cnt = 0
+    for b in structured_sources():
+        cnt += 1
+        for ob, sig, detail in check_bytes(b):
+            fails.setdefault((ob, sig), dict(ob=ob, sig=sig, detail=detail, inp=repr(b), count=0))['count'] += 1
+    return cnt, list(fails.values())
+
+
 def work_bytes(args):
     k, first = args
     fails = {}
@@ -114,6 +165,7 @@ def main():
     with mp.Pool(16) as pool:
         r1 = pool.map(work_split, [(a.n, c) for c in CH] + [(1, '')])
         r2 = pool.map(work_bytes, [(a.k, c) for c in ATOMS] + [(1, b'')])
+        r2 += pool.map(work_structured, [0])
     fails = {}
     for cnt, fl in r1 + r2:
         for f in fl:
@@ -131,9 +183,13 @@ def main():
     # the str branch and Grammar.parse wiring
     from parso.utils import python_bytes_to_unicode
     assert python_bytes_to_unicode('x\n') == 'x\n'
+    oc, obad = oracle_selfcheck()
+    if obad:
+        fails[('bnd:C15.oracle', 'selfcheck')] = dict(ob='bnd:C15.oracle', sig='selfcheck', count=obad, inp='',
+                                                      detail='reference decoder disagrees with compile() on %d of %d sources' % (obad, oc))
     res = dict(prop='C15', evaluations=n1 + n2, distinct_nontrivial=n1 + n2 - 2, failures=list(fails.values()),
                samples=['a\x0c\r\nb\x85', repr(b'# coding: latin-1\n\xe9')], wall_s=round(time.time() - t0, 2),
-               scope=dict(split_strings=n1, max_len=a.n, chars=[repr(c) for c in CH], byte_strings=n2, max_atoms=a.k,
+               scope=dict(split_strings=n1, max_len=a.n, chars=[repr(c) for c in CH], byte_strings=n2, oracle_selfcheck=dict(sources=oc, disagreements=obad), max_atoms=a.k,
                           atoms=[repr(x) for x in ATOMS]),
                rule='split_lines: every string of length <= %d over %d characters (all str.splitlines separators, CR, LF, '
                     'blank, NBSP, a letter, NUL), both modes, against the reference line splitter of spec/text.py; '
